@@ -113,12 +113,16 @@ def totality(M, N):
     def h(ex):
         data = ex.fresh_bytes("data", 0, N)
         frags = tlv8_scan(data)
+        # through decode_bytearray with the caller's own buffer: decoding (also a refused one) must leave it as it was
+        mine = M.__builtins__["bytearray"](data) if not getattr(ex, "concrete", False) else bytearray(data)
         try:
-            got = M.TLV.decode_bytes(data)
+            got = M.TLV.decode_bytearray(mine)
         except M.TlvParseException:
             ex.tag("parse-error")
             ex.require(frags is None, "decode: TlvParseException only for truncated input")
+            ex.require(rope_eq(mine, data), "decode: the caller's buffer is not consumed or altered (refused input)")
             return ex.observe("TlvParseException")
+        ex.require(rope_eq(mine, data), "decode: the caller's buffer is not consumed or altered")
         ex.require(frags is not None, "decode: truncated input must raise TlvParseException")
         if frags is None:
             return ex.observe(got)
